@@ -22,6 +22,7 @@ import TLX.Drv.UdpOut
 import TLX.Drv.TlsMsgs
 import TLX.Drv.Dissect
 import TLX.Drv.MainLoop
+import TLX.Drv.QuicSession
 
 def main (args : List String) : IO UInt32 := do
   match args with
@@ -44,4 +45,5 @@ def main (args : List String) : IO UInt32 := do
   | ["udpout"] => TLX.Drv.UdpOut.main; return 0
   | ["tlsmsgs"] => TLX.Drv.TlsMsgs.main; return 0
   | ["mainloop"] => TLX.Drv.MainLoop.main; return 0
+  | ["quicsession"] => TLX.Drv.QuicSession.main; return 0
   | _ => IO.eprintln "usage: tlxdriver <module>"; return 2
